@@ -40,6 +40,7 @@ type Mail struct{ Addr string } // <a@b.c>
 type Raw struct{ S string }     // inline raw html
 type Soft struct{}
 type Hard struct{}
+type BS struct{} // a literal backslash right before a hard break written with spaces
 
 // URL: pieces with source spelling and resolved value
 type URL struct{ P []Piece }
@@ -151,6 +152,8 @@ func plain(in []Inline) string {
 			sb.WriteString("\n")
 		case Hard:
 			sb.WriteString("\n")
+		case BS:
+			sb.WriteString("\\")
 		}
 	}
 	return sb.String()
@@ -202,6 +205,8 @@ func renderInl(in []Inline) string {
 			sb.WriteString("\n")
 		case Hard:
 			sb.WriteString("<br>\n")
+		case BS:
+			sb.WriteString("\\")
 		}
 	}
 	return sb.String()
